@@ -80,6 +80,15 @@ func caseOptions(r *common.Run, n int) raftsim.Options {
 		o.NonVotings, o.WConfigChange, o.WPartition = 1, 2, 2
 		o.PreferNonVoting = true
 		o.LongPartitions = rng.Intn(2) == 0
+	case "C02":
+		// diverging logs need competing leaders: larger shards, long partitions, crashes
+		o.WPartition, o.WCrash = 2, 2
+		if rng.Intn(3) == 0 {
+			o.Voters = 5
+		}
+		if rng.Intn(2) == 0 {
+			o.LongPartitions = true
+		}
 	case "C06":
 		o.WRead, o.WPartition, o.WTransfer = 10, 2, 2
 		// C06 quantifies over heartbeat loss/duplication/reordering; a duplicated
@@ -91,6 +100,7 @@ func caseOptions(r *common.Run, n int) raftsim.Options {
 		o.NonVotings, o.Witnesses = 1, 1
 	case "C18":
 		o.WConfigChange = 3
+		o.WTransfer = 3
 		o.WRead, o.WPartition = 8, 2
 		o.NoDupReadIndex = true // as for C06: only heartbeat duplication is in scope for read confirmations
 		o.NonVotings, o.Witnesses = 1+rng.Intn(2), 1
@@ -151,9 +161,9 @@ func main() {
 		fmt.Println(string(b))
 		return
 	}
-	total := r.Pick(6400, 160000)
+	total := r.Pick(6400, 800000)
 	if r.Prop == "C01" {
-		total = r.Pick(3200, 160000) // every history also goes through porcupine
+		total = r.Pick(3200, 240000) // every history also goes through porcupine
 	}
 	for _, n := range r.MyCases(total) {
 		opt := caseOptions(r, n)
